@@ -204,6 +204,9 @@ func (ex *Exec) verifyBody(fn *ssa.Function, fc *FuncContract) {
 	}
 	for _, p := range fn.FreeVars {
 		v := ex.freshValue("fv."+p.Name(), p.Type(), TTrue)
+		if pv, ok := v.(PtrV); ok {
+			ex.vc.Assume(TTrue, Not(Eq(pv.Ref, I(0))), "captured variables live in allocated cells")
+		}
 		fr.free = append(fr.free, v)
 		ex.paramVals[p.Name()] = v
 		ex.addModelSyms("&"+p.Name(), v)
